@@ -19,7 +19,7 @@ SEARCHES = {
     'C07': ['c07-search', 'c07s-search'],
     'C08': ['c08-search'],
     'C10': ['c08-search', 'c11-search', 'c10s-search'],
-    'C11': ['c11-search'],
+    'C11': ['c11-search', 'c02-search'],
     'C12': ['c12-search'],
     'C13': ['c13-search'],
     'C15': ['c15-search'],
